@@ -10,6 +10,8 @@ package main
 //   wrote(n)          exactly n bytes were appended since old(): length grew by n, every earlier position is unchanged,
 //                     the new bytes are in 0..255
 //   wkept()           the stream only grew: every position below old(wpos()) is unchanged
+//   wdepth()          nesting depth of struct begin/end events; wrote(n) leaves it unchanged, wnest(d) moves it by d
+//                     without writing bytes
 //   wplain(n)         none of the n bytes appended since old() is a bool byte
 //   wbe(p, n)         big-endian value of the n stream bytes at p
 //   bepack(xs, o, n)  big-endian value of the n bytes xs[o..o+n)
@@ -54,9 +56,13 @@ func (env *SpecEnv) streamBuiltin(name string, e *SExpr) (TV, bool) {
 		return TV{Select(vc.streamArr(env.st, "GH.wbyte"), arg(0)), I}, true
 	case "wbool":
 		return TV{Eq(Select(vc.streamArr(env.st, "GH.wbool"), arg(0)), IntLit(1)), B}, true
-	case "wkept", "wrote":
+	case "wdepth":
+		// nesting depth of struct begin/end events (GH.wpos[1])
+		return TV{Select(vc.streamArr(env.st, "GH.wpos"), IntLit(1)), I}, true
+	case "wkept", "wrote", "wnest":
 		old := needOld()
 		p0, p1 := vc.streamPos(old), vc.streamPos(env.st)
+		d0, d1 := Select(vc.streamArr(old, "GH.wpos"), IntLit(1)), Select(vc.streamArr(env.st, "GH.wpos"), IntLit(1))
 		k := BoundVar("wk", SInt)
 		nb, ob := vc.streamArr(env.st, "GH.wbyte"), vc.streamArr(old, "GH.wbyte")
 		nm, om := vc.streamArr(env.st, "GH.wbool"), vc.streamArr(old, "GH.wbool")
@@ -72,9 +78,17 @@ func (env *SpecEnv) streamBuiltin(name string, e *SExpr) (TV, bool) {
 		if name == "wkept" {
 			return TV{And(Ge(p1, p0), keep), B}, true
 		}
+		if name == "wnest" {
+			// a struct begin (+1) or end (-1) event: no bytes, the nesting depth moves by the argument
+			return TV{And(Eq(p1, p0), keep, Eq(d1, Add(d0, arg(0)))), B}, true
+		}
 		n := arg(0)
 		rng := Forall([]*Term{k}, Implies(And(Le(p0, k), Lt(k, p1)), And(Le(IntLit(0), Select(nb, k)), Le(Select(nb, k), IntLit(255)))), []*Term{Select(nb, k)})
-		return TV{And(Eq(p1, Add(p0, n)), keep, rng), B}, true
+		dd := IntLit(0)
+		if len(e.Args) > 1 {
+			dd = arg(1) // wrote(n, d): additionally the nesting depth moved by d
+		}
+		return TV{And(Eq(p1, Add(p0, n)), keep, rng, Eq(d1, Add(d0, dd))), B}, true
 	case "wplain":
 		old := needOld()
 		p0, p1 := vc.streamPos(old), vc.streamPos(env.st)
